@@ -353,6 +353,15 @@ func run(c *vf.Ctx) {
 		}
 		c.Eval(1)
 		drain(ms, 500)
+		if len(cs.Walk) == 0 {
+			// the same tables, a frame the ROUTER originates itself: a request to the absent router, which it has never
+			// heard of (no session: the ping is signed raw). It starts at 32 like every frame a router originates.
+			if _, _, err := src.Rt.PingPong.Send(absent.IP, false, 0); err == nil {
+				c.Eval(1)
+				drain(ms, 500)
+				desc["own_request"] = true
+			}
+		}
 		// compare with the model's prediction (drift only)
 		want := 0
 		for _, ei := range p {
